@@ -576,6 +576,9 @@ class ExcelCompiler:
                     processed_cells.add(child_address)
                     child_cell = self.cell_map[child_address]
                     if child_address in needed_cells or ':' in child_address:
+                        if child_cell.address.is_unbounded_range:
+                            # needed to resolve the range when the model is reloaded
+                            needed_cells.add(child_address)
                         walk_precedents(child_cell)
                     else:
                         # trim this cell, now we will need only its value
